@@ -158,26 +158,28 @@ Proof. vm_compute. split; reflexivity. Qed.
 (* ---- source-level tie of the replay stage (tools/facts/cfun.py -> gen/GenCredFun.v: dec_process_msg and
         dec_validate_replay TRANSLATED from the C text on every run; CredPipe.v).  For every interpretation of the
         stage functions: the replay cache is consulted LAST (after authorization and the time window), a failing stage
-        ends the chain, and the record is taken back exactly when the reply of a successful decode could not be sent -
+        ends the chain, and the record is taken back exactly when the reply of a successful decode THAT ADDED THE RECORD
+        ITSELF (c->is_replay_new) could not be sent -
         not for a replayed, expired or unauthorized one. ---- *)
 From Coq Require Import ZArith String.
 From MV Require Import CredModel CredFun CredPipe.
 From MV.gen Require Import GenCred GenCredFun.
 Theorem C05_source_decode_control : forall (S : Type) (ops : pipe_ops S) (s : S),
-  src_dec_process_msg ops s = pipe_control ops dec_stage_order soft_err true s.
+  src_dec_process_msg ops s = pipe_control ops dec_stage_order soft_err (Some "is_replay_new"%string) s.
 Proof. exact src_dec_process_msg_is_pipe. Qed.
 Print Assumptions C05_source_decode_control.
-Theorem C05_source_record_taken_back_exactly_when : forall (fail : string -> option N) (send_ok : bool),
-  t_unplayed (snd (src_dec_process_msg (trace_ops fail send_ok) t0)) = negb send_ok && all_succeed fail dec_stage_order.
+Theorem C05_source_record_taken_back_exactly_when : forall (fail : string -> option N) (added send_ok : bool),
+  t_unplayed (snd (src_dec_process_msg (trace_ops fail added send_ok) t0)) =
+  negb send_ok && all_succeed fail dec_stage_order && added.
 Proof. exact src_dec_unplay_iff. Qed.
 Print Assumptions C05_source_record_taken_back_exactly_when.
 (* replay_insert's outcome x the retry exemption, as in the model's replay stage *)
-Theorem C05_source_replay_stage : forall (cf : conf) (ins en : Z) (m : msg),
-  src_dec_validate_replay cf ins en m =
+Theorem C05_source_replay_stage : forall (cf : conf) (ins en c : Z) (m : msg),
+  src_dec_validate_replay cf ins en c m =
   ((if (ins =? 0)%Z then 0
     else if (ins >? 0)%Z
          then (if cf_socket_retry cf && (0 <? m_retry m) && (m_retry m <=? c_retry_attempts) then 0 else e_cred_replayed)
-    else if (en =? 12)%Z then e_no_memory else e_snafu), m).
+    else if (en =? 12)%Z then e_no_memory else e_snafu), m, (if (ins =? 0)%Z then 1 else c)%Z).
 Proof. exact dec_validate_replay_is_source. Qed.
 Print Assumptions C05_source_replay_stage.
 (* the translated dec_process_msg over the model's stage functions IS CredModel.dec_process (+ dec_rollback when the
@@ -189,6 +191,66 @@ Theorem C05_source_pipeline_is_model :
   let '(rc, s) := src_dec_process_msg (dec_ops hmac sha1 blk_dec zdecomp cf mem pu pg now send_ok) (dinit m rs) in
   let '(r, rs', k) := dec_process hmac sha1 blk_dec zdecomp cf mem rs m pu pg now in
   d_msg s = r /\ d_rs s = (if send_ok then rs' else dec_rollback rs' k) /\
-  rc = (if send_ok then match k with Some _ => 0 | None => -1 end else -1)%Z.
+  rc = (if send_ok && dec_accepts hmac sha1 blk_dec zdecomp cf mem pu pg now rs m then 0 else -1)%Z.
 Proof. exact dec_process_is_source. Qed.
 Print Assumptions C05_source_pipeline_is_model.
+
+(* ---- first attempts decode at most once, over whole histories of one daemon (CredHistory.v): events are decode
+        requests with a delivered reply (HDecode), decode requests whose reply cannot be delivered (HDecodeLost: the
+        daemon takes back what the request added) and purge ticks (HPurge); the request message carries the retry value
+        (any N, so 0..255 in particular), clients and clock readings are arbitrary per event ---- *)
+From MV Require Import CredProofs RetryModel RetryProofs CredHistory.
+(* after a DELIVERED decode of credential X that authenticates, is authorized and in time (any retry value - in
+   particular after a delivered success), every later request for X with retry = 0 inside the window is answered
+   'replayed' and changes nothing, whatever came before (h1) and in between (h2: any mix of delivered / undeliverable
+   decodes of any credentials with any retry values from any clients at any clock readings, and purge ticks at clock
+   readings not beyond the final request's).  Hence at most one retry-0 request per credential with a delivered reply
+   succeeds while its record can still be present. *)
+Theorem C05_first_attempts_at_most_once :
+  forall (hmac : N -> bytes -> bytes -> bytes) (sha1 : bytes -> bytes) (blk_dec : N -> bytes -> bytes -> bytes)
+         (zdecomp : N -> bytes -> N -> option bytes) cf mem (rs0 : CredModel.rstate) h1 h2
+         mA puA pgA nowA mA' m pu pg now m' k,
+  dec_pre hmac sha1 blk_dec zdecomp cf mem mA puA pgA nowA = inr (mA', k) ->
+  (forall p, In (HPurge p) h2 -> p <= u32 now) ->
+  dec_pre hmac sha1 blk_dec zdecomp cf mem m pu pg now = inr (m', k) -> m_retry m = 0 ->
+  let rs := hrun hmac sha1 blk_dec zdecomp cf mem rs0 (h1 ++ HDecode mA puA pgA nowA :: h2) in
+  dec_process hmac sha1 blk_dec zdecomp cf mem rs m pu pg now = (dec_finish (set_err m' e_cred_replayed None), rs, None).
+Proof. exact first_attempts_at_most_once. Qed.
+Print Assumptions C05_first_attempts_at_most_once.
+Theorem C05_two_first_attempts_not_both_ok :
+  forall (hmac : N -> bytes -> bytes -> bytes) (sha1 : bytes -> bytes) (blk_dec : N -> bytes -> bytes -> bytes)
+         (zdecomp : N -> bytes -> N -> option bytes) cf mem (rs0 : CredModel.rstate) h1 h2
+         mA puA pgA nowA mA' m pu pg now m' k,
+  dec_pre hmac sha1 blk_dec zdecomp cf mem mA puA pgA nowA = inr (mA', k) ->
+  (forall p, In (HPurge p) h2 -> p <= u32 now) ->
+  dec_pre hmac sha1 blk_dec zdecomp cf mem m pu pg now = inr (m', k) -> m_retry m = 0 -> m_err m = e_success ->
+  let rs := hrun hmac sha1 blk_dec zdecomp cf mem rs0 (h1 ++ HDecode mA puA pgA nowA :: h2) in
+  m_err (fst (fst (dec_process hmac sha1 blk_dec zdecomp cf mem rs m pu pg now))) = e_cred_replayed.
+Proof. exact two_first_attempts_not_both_ok. Qed.
+Print Assumptions C05_two_first_attempts_not_both_ok.
+(* a decode whose reply cannot be delivered leaves the cache EXACTLY as it found it (any request, any retry value) *)
+Theorem C05_undeliverable_decode_changes_nothing :
+  forall (hmac : N -> bytes -> bytes -> bytes) (sha1 : bytes -> bytes) (blk_dec : N -> bytes -> bytes -> bytes)
+         (zdecomp : N -> bytes -> N -> option bytes) cf mem (rs : CredModel.rstate) m pu pg now,
+  fst (hstep hmac sha1 blk_dec zdecomp cf mem rs (HDecodeLost m pu pg now)) = rs.
+Proof. exact lost_decode_restores. Qed.
+Print Assumptions C05_undeliverable_decode_changes_nothing.
+(* the roll-back rule BEFORE the repair (rc = 0 alone: a retry that was allowed to replay an existing record took that
+   record back when its reply could not be sent; CredHistory.dec_process_old) violates C05_first_attempts_at_most_once:
+   A first attempt delivered ok; B same credential retry = 1, reply undeliverable; C first attempt again in the window,
+   no purge - all premises hold, C succeeds again under the old rule (cache empty), is 'replayed' under the model's *)
+Theorem C05_old_unplay_refuted :
+  let pre := dec_pre toy_hmac (fun x => x) toy_blk (fun _ x _ => Some x) cf_std (fun _ _ => false) in
+  let old := dec_process_old toy_hmac (fun x => x) toy_blk (fun _ x _ => Some x) cf_std (fun _ _ => false) in
+  let new := dec_process toy_hmac (fun x => x) toy_blk (fun _ x _ => Some x) cf_std (fun _ _ => false) in
+  let A := HDecode (req toy_cred 0) 7 8 5010 in
+  let B := HDecodeLost (req toy_cred 1) 7 8 5011 in
+  let C := req toy_cred 0 in
+  (exists mA' m' k, pre (req toy_cred 0) 7 8 5010 = inr (mA', k) /\ pre C 7 8 5012 = inr (m', k)) /\
+  m_retry C = 0 /\ (forall p, In (HPurge p) [B] -> p <= u32 5012) /\
+  (let rs := hrun_old toy_hmac (fun x => x) toy_blk (fun _ x _ => Some x) cf_std (fun _ _ => false) [] [A; B] in
+   m_err (fst (fst (old rs C 7 8 5012))) = e_success /\ rs = []) /\
+  (let rs := hrun toy_hmac (fun x => x) toy_blk (fun _ x _ => Some x) cf_std (fun _ _ => false) [] [A; B] in
+   m_err (fst (fst (new rs C 7 8 5012))) = e_cred_replayed /\ List.length rs = 1%nat).
+Proof. exact old_unplay_refuted. Qed.
+Print Assumptions C05_old_unplay_refuted.
